@@ -130,6 +130,13 @@ def gen_case(r, idx):
         used_as.add(alias or pn)
         is_func = any(q['name'] == pn and 'func' in q for q in files[t]['preds'])
         owner['imports'].append({'file': t, 'pred': pn, 'alias': alias, 'used': True, 'func': is_func})
+        if not is_func and r.random() < 0.15:
+          # the same predicate imported once more under another name (both names are used)
+          alias2 = 'Al%d' % alias_n
+          alias_n += 1
+          if alias2 not in used_as:
+            used_as.add(alias2)
+            owner['imports'].append({'file': t, 'pred': pn, 'alias': alias2, 'used': True, 'func': False})
 
   for k, p in enumerate(order):
     later = [q for q in order[k + 1:] if q != 'main']
